@@ -335,6 +335,50 @@ def gen_alias_program(rng):
     queries = [['main', [V('Q0'), V('Q1'), V('Q2')]], ['main', [V('Q0'), V('Q0'), V('Q1')]], ['main', [V('Q0'), A('two'), V('Q1')]]]
     return {'clauses': clauses, 'queries': queries}
 
+def exhaustive_bodies(max_leaves=3):
+    """ALL clause bodies with at most max_leaves leaves over the leaf goals {q0(V) (no solution), q1(V) (one), q2(V) (two),
+    true, fail, !, V = a} and the constructs ',', ';', '->' (also without else), with \\+ applied to the whole body or not;
+    the i-th leaf uses the i-th head variable, so every answer names its path.  Yields (body, number of leaves)."""
+    VN = ['A', 'B', 'C', 'D']
+    def leaves(i):
+        v = V(VN[i])
+        return [['call', 'q0', [v]], ['call', 'q1', [v]], ['call', 'q2', [v]], ['true'], ['fail'], ['cut'], ['call', '=', [v, A('a')]]]
+    def trees(lo, n):
+        """all bodies with exactly n leaves using head variables lo .. lo+n-1"""
+        if n == 1:
+            for l in leaves(lo):
+                yield l
+            return
+        for k in range(1, n):
+            for a in trees(lo, k):
+                for b in trees(lo + k, n - k):
+                    yield ['and', a, b]
+                    yield ['or', a, b]
+                    yield ['if', a, b]
+                    if n - k >= 2 or True:
+                        pass
+        # if-then-else needs three parts
+        if n >= 3:
+            for k1 in range(1, n - 1):
+                for k2 in range(1, n - k1):
+                    for c in trees(lo, k1):
+                        for t in trees(lo + k1, k2):
+                            for e in trees(lo + k1 + k2, n - k1 - k2):
+                                yield ['or', ['if', c, t], e]
+    for n in range(1, max_leaves + 1):
+        for b in trees(0, n):
+            yield b, n
+            yield ['not', b], n
+
+EXH_FACTS = [['q1', [A('a')], ['true']], ['q2', [A('a')], ['true']], ['q2', [A('b')], ['true']], ['q0', [A('never')], ['fail']]]
+
+def exhaustive_cases(max_leaves=3, cont=True):
+    """one program per body of exhaustive_bodies: p(A,B,C,D) :- body [, D = end].  plus a second clause, so that a cut is observable"""
+    for b, n in exhaustive_bodies(max_leaves):
+        body = ['and', b, ['call', '=', [V('D'), A('end')]]] if cont else b
+        clauses = [['p', [V('A'), V('B'), V('C'), V('D')], body], ['p', [A('second'), A('clause'), V('_'), V('_')], ['true']]] + EXH_FACTS
+        yield {'clauses': clauses, 'queries': [['p', [V('Q0'), V('Q1'), V('Q2'), V('Q3')]]], 'origin': 'exhaustive'}
+
 # ------------------------------------------------------------------ anonymous variables
 
 def number_anons(clauses):
